@@ -1,17 +1,26 @@
 /-
-C45 — helper lemmas: the repaired key is a prefix code (unique readability).
-Every lemma has the shape  `K x₁ ++ r₁ = K x₂ ++ r₂ → x₁ = x₂ ∧ r₁ = r₂`  for one of the key builders `K`.
+C45 — helper lemmas.
+
+Part 1: the repaired key is a prefix code at token level (unique readability).  Every lemma has the shape
+`K x₁ ++ r₁ = K x₂ ++ r₂ → x₁ = x₂ ∧ r₁ = r₂` for one of the key builders `K`.
+
+Part 2: the key string determines the token list: `lex (renderL ts) = some ts` for well-formed `ts`.
 -/
 import PorepyVerif.C45.Model
 
+set_option linter.unusedSimpArgs false
+
 namespace PorepyVerif.C45
+
+/-! ## Part 1: tokens -/
 
 /-- key of a projection: six tokens, all identifying fields present -/
 theorem projKey_prefix (p1 p2 : Proj) (r1 r2 : List Tok)
     (h : projKey .repaired p1 ++ r1 = projKey .repaired p2 ++ r2) : p1 = p2 ∧ r1 = r2 := by
-  obtain ⟨a1, b1, c1, d1, e1, f1, t1⟩ := p1
-  obtain ⟨a2, b2, c2, d2, e2, f2, t2⟩ := p2
-  cases t1 <;> cases t2 <;> simp [projKey, Cfg.repaired] at h ⊢ <;> simp_all
+  obtain ⟨a1, c1, e1, f1, t1⟩ := p1
+  obtain ⟨a2, c2, e2, f2, t2⟩ := p2
+  simp [projKey, Cfg.repaired] at h ⊢
+  simp_all
 
 theorem membersTail_prefix (ps1 : List Proj) : ∀ (ps2 : List Proj) (r1 r2 : List Tok),
     membersTail .repaired ps1 ++ r1 = membersTail .repaired ps2 ++ r2 → ps1 = ps2 ∧ r1 = r2 := by
@@ -51,29 +60,33 @@ theorem membersKey_prefix (ps1 ps2 : List Proj) (r1 r2 : List Tok)
       obtain ⟨hps, hr'⟩ := membersTail_prefix _ _ _ _ hr
       exact ⟨by rw [hp, hps], hr'⟩
 
-/-- every leaf key starts with an opening token that names the leaf class -/
-theorem leafKey_head (c : Cfg) (l : Leaf) : ∃ k rest, leafKey c l = .lpar k :: rest := by
+/-- a leaf key starts with a token that is neither an operation nor `evaluate` -/
+theorem leafKey_head (c : Cfg) (l : Leaf) :
+    ∃ t rest, leafKey c l = t :: rest ∧ (∀ o, t ≠ .op o) ∧ t ≠ .ev := by
   cases l <;> simp [leafKey, projKey]
 
 theorem leafKey_prefix (l1 l2 : Leaf) (r1 r2 : List Tok)
     (h : leafKey .repaired l1 ++ r1 = leafKey .repaired l2 ++ r2) : l1 = l2 ∧ r1 = r2 := by
   cases l1 <;> cases l2 <;>
     first
-    | (simp [leafKey, optFld, projKey, Cfg.repaired] at h; done)
+    | (simp [leafKey, opt, projKey, Cfg.repaired] at h; done)
     | (simp only [leafKey, List.cons_append, List.cons.injEq, true_and] at h
        obtain ⟨hp, hr⟩ := membersKey_prefix _ _ _ _ h
        exact ⟨by rw [hp], hr⟩)
     | (simp only [leafKey] at h
        obtain ⟨hp, hr⟩ := projKey_prefix _ _ _ _ h
        exact ⟨by rw [hp], hr⟩)
-    | (simp [leafKey, optFld, Cfg.repaired] at h ⊢; simp_all)
+    | (simp [leafKey, opt, Cfg.repaired] at h ⊢; simp_all)
 
 /-- the fixed tokens in front of the argument keys of an evaluation node -/
-theorem key_eval (fname : String) (fid : Nat) (args : Args) :
+theorem key_eval (fname : Str) (fid : Option Nat) (args : Args) :
     key .repaired (.eval fname fid args) =
-      [.ev, .sp, .lpar .function, .fld .name (.str fname), .fld .fnId (.nat fid), .rpar, .sp,
-       .fld .nargs (.nat args.length)] ++ argsKey .repaired args := by
+      .ev :: .sp :: (fnKey fname fid ++ .sp :: .nargs args.length :: argsKey .repaired args) := by
   simp [key, Cfg.repaired]
+
+theorem fnKey_prefix (f1 f2 : Str) (i1 i2 : Option Nat) (r1 r2 : List Tok)
+    (h : fnKey f1 i1 ++ r1 = fnKey f2 i2 ++ r2) : f1 = f2 ∧ i1 = i2 ∧ r1 = r2 := by
+  cases i1 <;> cases i2 <;> simp [fnKey] at h ⊢ <;> simp_all
 
 mutual
 /-- Unique readability: the repaired key is a prefix code.  If a key followed by anything equals another
@@ -85,19 +98,23 @@ theorem key_prefix : ∀ (t1 t2 : Tree) (r1 r2 : List Tok),
     obtain ⟨hl, hr⟩ := leafKey_prefix _ _ _ _ h
     exact ⟨by rw [hl], hr⟩
   | .leaf l1, .bin o a b, r1, r2, h => by
-    obtain ⟨k, rest, hk⟩ := leafKey_head .repaired l1
+    obtain ⟨k, rest, hk, ho, _⟩ := leafKey_head .repaired l1
     simp [key, hk] at h
+    exact absurd h.1 (ho _)
   | .leaf l1, .eval f i as, r1, r2, h => by
-    obtain ⟨k, rest, hk⟩ := leafKey_head .repaired l1
+    obtain ⟨k, rest, hk, _, he⟩ := leafKey_head .repaired l1
     rw [key_eval] at h
     simp [key, hk] at h
+    exact absurd h.1 he
   | .bin o a b, .leaf l2, r1, r2, h => by
-    obtain ⟨k, rest, hk⟩ := leafKey_head .repaired l2
+    obtain ⟨k, rest, hk, ho, _⟩ := leafKey_head .repaired l2
     simp [key, hk] at h
+    exact absurd h.1.symm (ho _)
   | .eval f i as, .leaf l2, r1, r2, h => by
-    obtain ⟨k, rest, hk⟩ := leafKey_head .repaired l2
+    obtain ⟨k, rest, hk, _, he⟩ := leafKey_head .repaired l2
     rw [key_eval] at h
     simp [key, hk] at h
+    exact absurd h.1.symm he
   | .bin o a b, .eval f i as, r1, r2, h => by
     rw [key_eval] at h
     simp [key] at h
@@ -113,9 +130,10 @@ theorem key_prefix : ∀ (t1 t2 : Tree) (r1 r2 : List Tok),
     exact ⟨by rw [ho, ha, hb], hr⟩
   | .eval f i as, .eval f' i' as', r1, r2, h => by
     rw [key_eval, key_eval] at h
-    simp only [List.cons_append, List.nil_append, List.cons.injEq, Tok.fld.injEq, Val.str.injEq,
-      Val.nat.injEq, true_and] at h
-    obtain ⟨hf, hi, hn, h⟩ := h
+    simp only [List.cons_append, List.append_assoc, List.cons.injEq, true_and] at h
+    obtain ⟨hf, hi, h⟩ := fnKey_prefix _ _ _ _ _ _ h
+    simp only [List.cons.injEq, Tok.nargs.injEq, true_and] at h
+    obtain ⟨hn, h⟩ := h
     obtain ⟨has, hr⟩ := argsKey_prefix as as' r1 r2 hn h
     exact ⟨by rw [hf, hi, has], hr⟩
 /-- the same for argument lists of equal length (the length is part of the key) -/
@@ -131,5 +149,649 @@ theorem argsKey_prefix : ∀ (a1 a2 : Args) (r1 r2 : List Tok), a1.length = a2.l
     obtain ⟨hts, hr⟩ := argsKey_prefix ts ts' r1 r2 hn' h
     exact ⟨by rw [ht, hts], hr⟩
 end
+
+/-! ## Part 2: characters
+
+`lex (renderL ts) = some ts` for every well-formed token list: the literals the lexer tries are pairwise
+distinguishable (`protos_clash`, a finite table check), numbers / lists / tuples are read back by `takeNat`,
+`takeInt`, `takeList`, `takeTuple`, values extend to the next delimiter. -/
+
+/-- `r` is empty or starts with a character not satisfying `p` -/
+def headNot (p : Char → Bool) : List Char → Prop
+  | [] => True
+  | c :: _ => p c = false
+
+theorem spanP_append (p : Char → Bool) (v r : List Char) (hv : ∀ c ∈ v, p c = true) (hr : headNot p r) :
+    spanP p (v ++ r) = (v, r) := by
+  induction v with
+  | nil =>
+    cases r with
+    | nil => rfl
+    | cons c r => simp [spanP, headNot] at hr ⊢; simp [hr]
+  | cons a v ih =>
+    have ha : p a = true := hv a (List.mem_cons_self)
+    have := ih (fun c hc => hv c (List.mem_cons_of_mem _ hc))
+    simp [spanP, ha, this]
+
+theorem stripPrefix_append (l r : List Char) : stripPrefix l (l ++ r) = some r := by
+  induction l with
+  | nil => cases r <;> rfl
+  | cons a l ih => simp [stripPrefix, ih]
+
+/-- the two lists differ at a position both have -/
+def clash : List Char → List Char → Bool
+  | a :: l, b :: p => a != b || clash l p
+  | _, _ => false
+
+theorem stripPrefix_clash : ∀ (l p x : List Char), clash l p = true → stripPrefix l (p ++ x) = none
+  | [], _, _, h => by simp [clash] at h
+  | _ :: _, [], _, h => by simp [clash] at h
+  | a :: l, b :: p, x, h => by
+    simp only [clash, Bool.or_eq_true, bne_iff_ne, ne_eq] at h
+    by_cases hab : a = b
+    · subst hab
+      simp only [not_true_eq_false, false_or] at h
+      simp [stripPrefix, stripPrefix_clash l p x h]
+    · simp [stripPrefix, hab]
+
+theorem stripPrefix_nil_none (a : Char) (l : List Char) : stripPrefix (a :: l) [] = none := rfl
+
+theorem digVal_digitChar : ∀ d, d < 10 → digVal (digitChar d) = d := by decide
+theorem isDig_digitChar : ∀ d, isDig (digitChar d) = true := by
+  intro d
+  unfold digitChar
+  split <;> rfl
+
+theorem natCharsAux_spec : ∀ (fuel n : Nat) (acc : List Char), n < fuel →
+    ∃ ds, natCharsAux fuel n acc = ds ++ acc ∧ ds ≠ [] ∧ (∀ c ∈ ds, isDig c = true) ∧ valNat ds = n := by
+  intro fuel
+  induction fuel with
+  | zero => intro n acc h; omega
+  | succ fuel ih =>
+    intro n acc h
+    unfold natCharsAux
+    by_cases h0 : n / 10 = 0
+    · refine ⟨[digitChar (n % 10)], by simp [h0], by simp, ?_, ?_⟩
+      · intro c hc; simp at hc; subst hc; exact isDig_digitChar _
+      · have h1 : n % 10 = n := by omega
+        have h2 := digVal_digitChar (n % 10) (Nat.mod_lt _ (by omega))
+        rw [h1] at h2
+        simp [valNat, h1, h2]
+    · obtain ⟨ds, hds, hne, hdig, hval⟩ := ih (n / 10) (digitChar (n % 10) :: acc) (by omega)
+      refine ⟨ds ++ [digitChar (n % 10)], by simp [h0, hds], by simp, ?_, ?_⟩
+      · intro c hc
+        rcases List.mem_append.mp hc with hc | hc
+        · exact hdig c hc
+        · simp at hc; subst hc; exact isDig_digitChar _
+      · unfold valNat at hval ⊢
+        rw [List.foldl_append, hval]
+        simp [digVal_digitChar (n % 10) (Nat.mod_lt _ (by omega))]
+        omega
+
+theorem natChars_spec (n : Nat) :
+    natChars n ≠ [] ∧ (∀ c ∈ natChars n, isDig c = true) ∧ valNat (natChars n) = n := by
+  obtain ⟨ds, hds, hne, hdig, hval⟩ := natCharsAux_spec (n + 1) n [] (by omega)
+  simp only [List.append_nil] at hds
+  unfold natChars
+  rw [hds]
+  exact ⟨hne, hdig, hval⟩
+
+theorem takeNat_natChars (n : Nat) (r : List Char) (hr : headNot isDig r) :
+    takeNat (natChars n ++ r) = some (n, r) := by
+  obtain ⟨hne, hdig, hval⟩ := natChars_spec n
+  unfold takeNat
+  rw [spanP_append isDig _ _ hdig hr]
+  cases h : natChars n with
+  | nil => exact absurd h hne
+  | cons a l => rw [← h]; simp [hne, hval]
+
+theorem isTerm_not_isDig (c : Char) (h : isTerm c = true) : isDig c = false := by
+  simp only [isTerm, Bool.or_eq_true, beq_iff_eq] at h
+  rcases h with ((h | h) | h) | h <;> subst h <;> rfl
+
+theorem natChars_head (n : Nat) : ∃ d ds, natChars n = d :: ds ∧ isDig d = true := by
+  obtain ⟨hne, hdig, _⟩ := natChars_spec n
+  cases h : natChars n with
+  | nil => exact absurd h hne
+  | cons d ds => exact ⟨d, ds, rfl, hdig d (by rw [h]; exact List.mem_cons_self)⟩
+
+theorem takeInt_intChars (i : Int) (r : List Char) (hr : headNot isDig r) :
+    takeInt (intChars i ++ r) = some (i, r) := by
+  cases i with
+  | ofNat n =>
+    obtain ⟨d, ds, hd, hdig⟩ := natChars_head n
+    have hne : ('-' : Char) ≠ d := by intro h; subst h; simp [isDig] at hdig
+    have h1 : stripPrefix ['-'] (natChars n ++ r) = none := by
+      rw [hd]; simp [stripPrefix, hne]
+    simp only [intChars, takeInt, h1, takeNat_natChars n r hr]
+  | negSucc n =>
+    have h1 : stripPrefix ['-'] ('-' :: (natChars (n + 1) ++ r)) = some (natChars (n + 1) ++ r) := by
+      simp [stripPrefix]
+    simp [intChars, takeInt, h1, takeNat_natChars (n + 1) r hr]
+
+theorem takeNatsSep_natsSep : ∀ (l : List Nat), l ≠ [] → ∀ (fuel : Nat) (r : List Char), l.length ≤ fuel →
+    headNot isDig r → stripPrefix [',', ' '] r = none →
+    takeNatsSep fuel (natsSep l ++ r) = some (l, r)
+  | [], h, _, _, _, _, _ => absurd rfl h
+  | [a], _, fuel, r, hf, hr, hs => by
+    cases fuel with
+    | zero => simp at hf
+    | succ fuel => simp [takeNatsSep, natsSep, takeNat_natChars a r hr, hs]
+  | a :: b :: l, _, fuel, r, hf, hr, hs => by
+    cases fuel with
+    | zero => simp at hf
+    | succ fuel =>
+      have ih := takeNatsSep_natsSep (b :: l) (by simp) fuel r (by simpa using hf) hr hs
+      have h1 : takeNat (natChars a ++ (',' :: ' ' :: (natsSep (b :: l) ++ r))) =
+          some (a, ',' :: ' ' :: (natsSep (b :: l) ++ r)) := takeNat_natChars a _ (by simp [headNot, isDig])
+      have h2 : stripPrefix [',', ' '] (',' :: ' ' :: (natsSep (b :: l) ++ r)) = some (natsSep (b :: l) ++ r) := by
+        simp [stripPrefix]
+      simp only [natsSep, List.append_assoc, List.cons_append, takeNatsSep, h1, h2, ih]
+
+theorem natsSep_length (l : List Nat) : l.length ≤ (natsSep l).length := by
+  induction l with
+  | nil => simp [natsSep]
+  | cons a l ih =>
+    cases l with
+    | nil =>
+      obtain ⟨d, ds, hd, _⟩ := natChars_head a
+      simp [natsSep, hd]
+    | cons b l =>
+      simp only [natsSep, List.length_append, List.length_cons] at ih ⊢
+      omega
+
+theorem natsSep_head (l : List Nat) (h : l ≠ []) : ∃ d ds, natsSep l = d :: ds ∧ isDig d = true := by
+  cases l with
+  | nil => exact absurd rfl h
+  | cons a l =>
+    obtain ⟨d, ds, hd, hdig⟩ := natChars_head a
+    cases l with
+    | nil => exact ⟨d, ds, by simp [natsSep, hd], hdig⟩
+    | cons b l => exact ⟨d, ds ++ ',' :: ' ' :: natsSep (b :: l), by simp [natsSep, hd], hdig⟩
+
+theorem takeList_listChars (l : List Nat) (r : List Char) : takeList (listChars l ++ r) = some (l, r) := by
+  cases l with
+  | nil => simp [listChars, natsSep, takeList, stripPrefix]
+  | cons a l =>
+    obtain ⟨d, ds, hd, hdig⟩ := natsSep_head (a :: l) (by simp)
+    have hne : (']' : Char) ≠ d := by intro h; subst h; simp [isDig] at hdig
+    have h0 : stripPrefix ['['] (listChars (a :: l) ++ r) = some (natsSep (a :: l) ++ (']' :: r)) := by
+      simp [listChars, stripPrefix]
+    have h1 : stripPrefix [']'] (natsSep (a :: l) ++ (']' :: r)) = none := by
+      rw [hd]; simp [stripPrefix, hne]
+    have hlen : (a :: l).length ≤ (natsSep (a :: l) ++ (']' :: r)).length := by
+      have := natsSep_length (a :: l)
+      simp only [List.length_append] at this ⊢
+      omega
+    have h2 := takeNatsSep_natsSep (a :: l) (by simp) _ (']' :: r) hlen (by simp [headNot, isDig])
+      (by simp [stripPrefix])
+    have h3 : stripPrefix [']'] (']' :: r) = some r := by simp [stripPrefix]
+    simp only [takeList, h0, h1, h2, h3]
+
+theorem takeTuple_tupleChars (l : List Nat) (r : List Char) : takeTuple (tupleChars l ++ r) = some (l, r) := by
+  cases l with
+  | nil => simp [tupleChars, natsSep, takeTuple, stripPrefix]
+  | cons a l =>
+    obtain ⟨d, ds, hd, hdig⟩ := natsSep_head (a :: l) (by simp)
+    have hne : (')' : Char) ≠ d := by intro h; subst h; simp [isDig] at hdig
+    cases l with
+    | nil =>
+      have h0 : stripPrefix ['('] (tupleChars [a] ++ r) = some (natsSep [a] ++ (',' :: ')' :: r)) := by
+        simp [tupleChars, natsSep, stripPrefix]
+      have h1 : stripPrefix [')'] (natsSep [a] ++ (',' :: ')' :: r)) = none := by
+        rw [hd]; simp [stripPrefix, hne]
+      have hlen : [a].length ≤ (natsSep [a] ++ (',' :: ')' :: r)).length := by
+        simp only [List.length_append, List.length_cons, List.length_nil]
+        omega
+      have h2 := takeNatsSep_natsSep [a] (by simp) _ (',' :: ')' :: r) hlen (by simp [headNot, isDig])
+        (by simp [stripPrefix])
+      have h3 : stripPrefix [',', ')'] (',' :: ')' :: r) = some r := by simp [stripPrefix]
+      simp only [takeTuple, h0, h1, h2, List.length_singleton, if_true, h3]
+    | cons b l =>
+      have h0 : stripPrefix ['('] (tupleChars (a :: b :: l) ++ r) = some (natsSep (a :: b :: l) ++ (')' :: r)) := by
+        simp [tupleChars, stripPrefix]
+      have h1 : stripPrefix [')'] (natsSep (a :: b :: l) ++ (')' :: r)) = none := by
+        rw [hd]; simp [stripPrefix, hne]
+      have hlen : (a :: b :: l).length ≤ (natsSep (a :: b :: l) ++ (')' :: r)).length := by
+        have := natsSep_length (a :: b :: l)
+        simp only [List.length_append] at this ⊢
+        omega
+      have h2 := takeNatsSep_natsSep (a :: b :: l) (by simp) _ (')' :: r) hlen (by simp [headNot, isDig])
+        (by simp [stripPrefix])
+      have h3 : stripPrefix [')'] (')' :: r) = some r := by simp [stripPrefix]
+      have h4 : ¬ ((a :: b :: l).length = 1) := by simp
+      simp only [takeTuple, h0, h1, h2, h4, if_false, h3]
+
+/-- `r` is empty or starts with a character that ends values -/
+def headTerm : List Char → Prop
+  | [] => True
+  | c :: _ => isTerm c = true
+
+theorem headTerm_headNot_isDig (r : List Char) (h : headTerm r) : headNot isDig r := by
+  cases r with
+  | nil => trivial
+  | cons c r => exact isTerm_not_isDig c h
+
+theorem spanVal_append (v rest : List Char) (hv : valOk v = true) (hr : headTerm rest) :
+    spanP (fun c => !isTerm c) (v ++ rest) = (v, rest) := by
+  apply spanP_append
+  · simpa [valOk, List.all_eq_true] using hv
+  · cases rest with
+    | nil => trivial
+    | cons c r => simp [headNot]; exact hr
+
+/-- the representative of the shape of a token in `protos` -/
+def proto : Tok → Tok
+  | .scalar _ => .scalar []
+  | .sparse .. => .sparse [] 0 0 []
+  | .fstr l _ => .fstr l []
+  | .fnat l _ => .fnat l 0
+  | .nargs _ => .nargs 0
+  | .rangeSize .. => .rangeSize 0 false
+  | .fint l _ => .fint l 0
+  | .fnats l _ => .fnats l []
+  | .shape _ => .shape []
+  | .physics .. => .physics [] none
+  | .projRepr .. => .projRepr 0 false
+  | t => t
+
+theorem proto_lit (t : Tok) : (proto t).lit = t.lit := by cases t <;> rfl
+
+theorem proto_mem (t : Tok) (h : wfTok t = true) : proto t ∈ protos := by
+  cases t with
+  | op o => cases o <;> simp [proto, protos]
+  | lpar k => cases k <;> simp [proto, protos]
+  | fstr l s => cases l <;> simp_all [proto, protos, wfTok]
+  | dtype d => cases d <;> simp [proto, protos]
+  | fnat l n => cases l <;> simp [proto, protos]
+  | fint l i => cases l <;> simp [proto, protos]
+  | fnats l ns => cases l <;> simp [proto, protos]
+  | projRepr a b => simp [wfTok] at h
+  | _ => simp [proto, protos]
+
+/-- what may come after the piece of token `t` in a key string -/
+structure RestOk (t : Tok) (rest : List Char) : Prop where
+  term : openEnd t = true → headTerm rest
+  noTr : stripPrefix cl!", transposed" rest = none
+  noInner : stripPrefix cl!", inner_physics_key=" rest = none
+
+theorem parseBody_spec (t : Tok) (rest : List Char) (hw : wfTok t = true) (hr : RestOk t rest) :
+    parseBody (proto t) (t.body ++ rest) = some (t, rest) := by
+  cases t with
+  | scalar r =>
+    have := spanVal_append r rest (by simpa [wfTok] using hw) (hr.term rfl)
+    simp [parseBody, proto, Tok.body, this]
+  | fstr l s =>
+    have hv : valOk s = true := by cases l <;> simp_all [wfTok]
+    have := spanVal_append s rest hv (hr.term rfl)
+    simp [parseBody, proto, Tok.body, this]
+  | fnat l n =>
+    have := takeNat_natChars n rest (headTerm_headNot_isDig _ (hr.term rfl))
+    simp [parseBody, proto, Tok.body, this]
+  | nargs n =>
+    have := takeNat_natChars n rest (headTerm_headNot_isDig _ (hr.term rfl))
+    simp [parseBody, proto, Tok.body, this]
+  | fint l i =>
+    have := takeInt_intChars i rest (headTerm_headNot_isDig _ (hr.term rfl))
+    simp [parseBody, proto, Tok.body, this]
+  | fnats l ns => simp [parseBody, proto, Tok.body, takeList_listChars]
+  | shape ns => simp [parseBody, proto, Tok.body, takeTuple_tupleChars]
+  | rangeSize n tr =>
+    cases tr with
+    | true =>
+      have h1 := takeNat_natChars n (cl!", transposed" ++ rest) (by simp [headNot, isDig])
+      have h2 := stripPrefix_append cl!", transposed" rest
+      simp only [parseBody, proto, Tok.body, if_true, List.append_assoc, h1, h2]
+    | false =>
+      have h1 := takeNat_natChars n rest (headTerm_headNot_isDig _ (hr.term rfl))
+      simp only [parseBody, proto, Tok.body, Bool.false_eq_true, if_false, List.append_nil, h1, hr.noTr]
+  | physics pk inner =>
+    cases inner with
+    | some s =>
+      have hw' : valOk pk = true ∧ valOk s = true := by simpa [wfTok] using hw
+      have h1 := spanVal_append pk (cl!", inner_physics_key=" ++ (s ++ rest)) hw'.1 (by simp [headTerm, isTerm])
+      have h2 := stripPrefix_append cl!", inner_physics_key=" (s ++ rest)
+      have h3 := spanVal_append s rest hw'.2 (hr.term rfl)
+      simp only [parseBody, proto, Tok.body, List.append_assoc, h1, h2, h3]
+    | none =>
+      have hw' : valOk pk = true := by simpa [wfTok] using hw
+      have h1 := spanVal_append pk rest hw' (hr.term rfl)
+      simp only [parseBody, proto, Tok.body, List.append_nil, h1, hr.noInner]
+  | sparse fmt rows cols hex =>
+    have hw' : (valOk fmt = true ∧ (fmt.all fun c => c != '(') = true) ∧ valOk hex = true := by
+      simpa [wfTok] using hw
+    have h1 : spanP (fun c => c != '(') ((fmt ++ ['_']) ++ ('(' :: (natChars rows ++ (',' :: ' ' :: (natChars cols ++ (')' :: '_' :: (hex ++ rest)))))))
+        = (fmt ++ ['_'], '(' :: (natChars rows ++ (',' :: ' ' :: (natChars cols ++ (')' :: '_' :: (hex ++ rest)))))) := by
+      apply spanP_append
+      · intro c hc
+        rcases List.mem_append.mp hc with hc | hc
+        · exact (List.all_eq_true.mp hw'.1.2) c hc
+        · simp at hc; subst hc; rfl
+      · simp [headNot]
+    have h2 := takeNat_natChars rows (',' :: ' ' :: (natChars cols ++ (')' :: '_' :: (hex ++ rest)))) (by simp [headNot, isDig])
+    have h3 := takeNat_natChars cols (')' :: '_' :: (hex ++ rest)) (by simp [headNot, isDig])
+    have h4 := spanVal_append hex rest hw'.2 (hr.term rfl)
+    have hb : (Tok.sparse fmt rows cols hex).body ++ rest =
+        (fmt ++ ['_']) ++ ('(' :: (natChars rows ++ (',' :: ' ' :: (natChars cols ++ (')' :: '_' :: (hex ++ rest)))))) := by
+      simp [Tok.body]
+    rw [hb]
+    simp only [parseBody, proto, h1, List.reverse_append, List.reverse_cons, List.reverse_nil, List.nil_append,
+      List.singleton_append, stripPrefix, if_true, h2, h3, h4, List.reverse_reverse]
+  | projRepr a b => simp [wfTok] at hw
+  | _ => simp [parseBody, proto, Tok.body]
+
+/-- what the string certainly continues with when a token of this shape was rendered in a well-formed
+    list: its literal; for the member separator also the `(` of the member that follows -/
+def litX (q : Tok) : List Char := if q = .comma then cl!", (" else q.lit
+
+/-- the literals tried before the one of `q` -/
+def before (q : Tok) : List Tok := protos.takeWhile (fun p => p != q)
+
+/-- every literal tried earlier differs from the text of a later token at a position both have -/
+theorem protos_clash : protos.all (fun q => (before q).all (fun p => clash p.lit (litX q))) = true := by
+  decide +kernel
+
+theorem protos_noTr : protos.all (fun q => clash cl!", transposed" (litX q)) = true := by decide +kernel
+
+theorem protos_noInner : protos.all (fun q => clash cl!", inner_physics_key=" (litX q)) = true := by
+  decide +kernel
+
+theorem lexWith_spec (q : Tok) (cs r : List Char) : ∀ (l : List Tok), q ∈ l →
+    (∀ p ∈ l.takeWhile (fun p => p != q), stripPrefix p.lit cs = none) →
+    stripPrefix q.lit cs = some r → lexWith l cs = parseBody q r := by
+  intro l
+  induction l with
+  | nil => intro h; simp at h
+  | cons p l ih =>
+    intro hq hb hs
+    by_cases hpq : p = q
+    · subst hpq
+      simp [lexWith, hs]
+    · have hne : (p != q) = true := by simpa using hpq
+      have hp : stripPrefix p.lit cs = none := hb p (by simp [List.takeWhile, hne])
+      have hq' : q ∈ l := by
+        rcases List.mem_cons.mp hq with h | h
+        · exact absurd h.symm hpq
+        · exact h
+      simp only [lexWith, hp]
+      exact ih hq' (fun p' hp' => hb p' (by simp [List.takeWhile, hne, hp'])) hs
+
+theorem proto_eq_comma (t : Tok) : proto t = .comma ↔ t = .comma := by
+  cases t <;> simp [proto]
+
+theorem lexOne_spec (t : Tok) (rest : List Char) (hw : wfTok t = true) (hr : RestOk t rest)
+    (hc : t = .comma → ∃ tail, rest = '(' :: tail) : lexOne (t.chars ++ rest) = some (t, rest) := by
+  have hmem := proto_mem t hw
+  have hX : ∃ tail, t.chars ++ rest = litX (proto t) ++ tail := by
+    by_cases h : t = .comma
+    · obtain ⟨tail, ht⟩ := hc h
+      subst h
+      exact ⟨tail, by simp [ht, Tok.chars, Tok.lit, Tok.body, litX, proto]⟩
+    · have : proto t ≠ .comma := fun h' => h ((proto_eq_comma t).mp h')
+      exact ⟨t.body ++ rest, by simp [litX, this, proto_lit, Tok.chars]⟩
+  obtain ⟨tail, htail⟩ := hX
+  have hcl := List.all_eq_true.mp protos_clash (proto t) hmem
+  have hb : ∀ p ∈ protos.takeWhile (fun p => p != proto t), stripPrefix p.lit (t.chars ++ rest) = none := by
+    intro p hp
+    rw [htail]
+    exact stripPrefix_clash _ _ _ (List.all_eq_true.mp hcl p hp)
+  have hs : stripPrefix (proto t).lit (t.chars ++ rest) = some (t.body ++ rest) := by
+    rw [proto_lit, Tok.chars, List.append_assoc]
+    exact stripPrefix_append _ _
+  unfold lexOne
+  rw [lexWith_spec (proto t) _ _ protos hmem hb hs]
+  exact parseBody_spec t rest hw hr
+
+theorem lit_ne_nil (t : Tok) : t.lit ≠ [] := by
+  cases t with
+  | op o => cases o <;> simp [Tok.lit, BinOp.chars]
+  | lpar k => cases k <;> simp [Tok.lit, Kind.chars]
+  | fstr l s => cases l <;> simp [Tok.lit, StrLbl.chars]
+  | dtype d => cases d <;> simp [Tok.lit, DomType.chars]
+  | fnat l n => cases l <;> simp [Tok.lit, NatLbl.chars]
+  | fint l i => cases l <;> simp [Tok.lit, IntLbl.chars]
+  | fnats l ns => cases l <;> simp [Tok.lit, ListLbl.chars]
+  | _ => simp [Tok.lit]
+
+theorem wfList_cons (t : Tok) (r : List Tok) (h : wfList (t :: r) = true) : wfTok t = true ∧ wfList r = true := by
+  cases r with
+  | nil => simp [wfList] at h ⊢; exact h.1
+  | cons t' r' => simp [wfList] at h ⊢; exact ⟨h.1.1, h.2⟩
+
+theorem kind_chars_head (k : Kind) : ∃ tail, k.chars = '(' :: tail := by
+  cases k <;> exact ⟨_, rfl⟩
+
+/-- the string of a well-formed list starts with the literal of its first token
+    (and with `, (` if that is the member separator) -/
+theorem renderL_start (t : Tok) (r : List Tok) (h : wfList (t :: r) = true) :
+    ∃ tail, renderL (t :: r) = litX (proto t) ++ tail := by
+  by_cases hc : t = .comma
+  · subst hc
+    cases r with
+    | nil => simp [wfList] at h
+    | cons t' r' =>
+      have hf : follows .comma t' = true := by simp [wfList] at h; exact h.1.2
+      cases t' <;> simp [follows] at hf
+      rename_i k
+      obtain ⟨tail, hk⟩ := kind_chars_head k
+      exact ⟨tail ++ renderL r', by simp [renderL, Tok.chars, Tok.lit, Tok.body, litX, proto, hk]⟩
+  · have : proto t ≠ .comma := fun h' => hc ((proto_eq_comma t).mp h')
+    exact ⟨t.body ++ renderL r, by simp [renderL, litX, this, proto_lit, Tok.chars]⟩
+
+theorem restOk_of_wfList (t : Tok) (r : List Tok) (h : wfList (t :: r) = true) : RestOk t (renderL r) := by
+  cases r with
+  | nil => exact ⟨fun _ => trivial, rfl, rfl⟩
+  | cons t' r' =>
+    have hf : follows t t' = true := by simp [wfList] at h; exact h.1.2
+    have hw' := wfList_cons t (t' :: r') h
+    obtain ⟨tail, htail⟩ := renderL_start t' r' hw'.2
+    have hmem := proto_mem t' (wfList_cons t' r' hw'.2).1
+    refine ⟨?_, ?_, ?_⟩
+    · intro ho
+      have hts : termStart t' = true := by simp [follows, ho] at hf; exact hf.1
+      unfold termStart at hts
+      cases hl : t'.lit with
+      | nil => simp [hl] at hts
+      | cons c l => simp [hl] at hts; simp [renderL, Tok.chars, hl, headTerm, hts]
+    · rw [htail]
+      exact stripPrefix_clash _ _ _ (List.all_eq_true.mp protos_noTr _ hmem)
+    · rw [htail]
+      exact stripPrefix_clash _ _ _ (List.all_eq_true.mp protos_noInner _ hmem)
+
+theorem comma_next (r : List Tok) (h : wfList (.comma :: r) = true) : ∃ tail, renderL r = '(' :: tail := by
+  cases r with
+  | nil => simp [wfList] at h
+  | cons t' r' =>
+    have hf : follows .comma t' = true := by simp [wfList] at h; exact h.1.2
+    cases t' <;> simp [follows] at hf
+    rename_i k
+    obtain ⟨tail, hk⟩ := kind_chars_head k
+    exact ⟨tail ++ renderL r', by simp [renderL, Tok.chars, Tok.lit, Tok.body, hk]⟩
+
+theorem lexAux_spec : ∀ (ts : List Tok) (fuel : Nat), wfList ts = true → ts.length ≤ fuel →
+    lexAux fuel (renderL ts) = some ts := by
+  intro ts
+  induction ts with
+  | nil => intro fuel _ _; cases fuel <;> rfl
+  | cons t r ih =>
+    intro fuel hw hf
+    cases fuel with
+    | zero => simp at hf
+    | succ fuel =>
+      have hw' := wfList_cons t r hw
+      have h1 : lexOne (t.chars ++ renderL r) = some (t, renderL r) :=
+        lexOne_spec t (renderL r) hw'.1 (restOk_of_wfList t r hw) (fun hc => by subst hc; exact comma_next r hw)
+      have hne : t.chars ++ renderL r ≠ [] := by
+        intro h
+        have := List.append_eq_nil_iff.mp h
+        exact lit_ne_nil t (List.append_eq_nil_iff.mp this.1).1
+      have h2 := ih fuel hw'.2 (by simpa using hf)
+      show lexAux (fuel + 1) (t.chars ++ renderL r) = some (t :: r)
+      cases hcs : t.chars ++ renderL r with
+      | nil => exact absurd hcs hne
+      | cons c cs =>
+        rw [hcs] at h1
+        simp only [lexAux, h1]
+        simp [h2]
+
+theorem chars_length_pos (t : Tok) : 0 < t.chars.length := by
+  have := lit_ne_nil t
+  cases h : t.lit with
+  | nil => exact absurd h this
+  | cons c l => simp [Tok.chars, h]
+
+theorem length_le_renderL (ts : List Tok) : ts.length ≤ (renderL ts).length := by
+  induction ts with
+  | nil => simp [renderL]
+  | cons t r ih =>
+    have := chars_length_pos t
+    simp only [renderL, List.length_cons, List.length_append]
+    omega
+
+/-- the decoder reads back every well-formed token list from its string -/
+theorem lex_renderL (ts : List Tok) (h : wfList ts = true) : lex (renderL ts) = some ts :=
+  lexAux_spec ts _ h (length_le_renderL ts)
+
+/-- hence rendering loses nothing -/
+theorem renderL_injective (a b : List Tok) (ha : wfList a = true) (hb : wfList b = true)
+    (h : renderL a = renderL b) : a = b := by
+  have h1 := lex_renderL a ha
+  have h2 := lex_renderL b hb
+  rw [h] at h1
+  exact Option.some.inj (h1.symm.trans h2)
+
+/-- nothing, or a token that starts with a character ending values, comes next -/
+def okNext : List Tok → Bool
+  | [] => true
+  | y :: _ => termStart y
+
+/-- the condition a token puts on what follows it -/
+def linkB (t : Tok) (x : List Tok) : Bool :=
+  if t == .comma then (match x with | .lpar _ :: _ => true | _ => false) else (!openEnd t || okNext x)
+
+theorem wfList_cons_eq (t : Tok) (x : List Tok) : wfList (t :: x) = (wfTok t && linkB t x && wfList x) := by
+  cases x with
+  | nil =>
+    by_cases hc : t = .comma
+    · subst hc; simp [wfList, linkB]
+    · have hne : (t != .comma) = true := by simpa using hc
+      simp [wfList, linkB, hc, hne, okNext]
+  | cons y z =>
+    by_cases hc : t = .comma
+    · subst hc; cases y <;> simp [wfList, linkB, follows, openEnd]
+    · have hne : (t != .comma) = true := by simpa using hc
+      simp [wfList, linkB, hc, hne, okNext, follows]
+
+theorem wfList_comma (k : Kind) (z : List Tok) :
+    wfList (.comma :: .lpar k :: z) = wfList (.lpar k :: z) := by
+  simp [wfList, wfTok, follows, openEnd]
+
+theorem okNext_cons (y : Tok) (z : List Tok) : okNext (y :: z) = termStart y := rfl
+theorem okNext_nil : okNext [] = true := rfl
+theorem termStart_fstr (l : StrLbl) (s : Str) : termStart (.fstr l s) = true := by cases l <;> rfl
+theorem termStart_fnat (l : NatLbl) (n : Nat) : termStart (.fnat l n) = true := by cases l <;> rfl
+theorem termStart_fint (l : IntLbl) (i : Int) : termStart (.fint l i) = true := by cases l <;> rfl
+theorem termStart_fnats (l : ListLbl) (ns : List Nat) : termStart (.fnats l ns) = true := by cases l <;> rfl
+theorem termStart_dtype (d : DomType) : termStart (.dtype d) = true := by cases d <;> rfl
+theorem termStart_rangeSize (n : Nat) (tr : Bool) : termStart (.rangeSize n tr) = true := rfl
+theorem termStart_physics (pk : Str) (i : Option Str) : termStart (.physics pk i) = true := rfl
+theorem termStart_shape (ns : List Nat) : termStart (.shape ns) = true := rfl
+theorem termStart_rpar : termStart .rpar = true := rfl
+theorem termStart_sp : termStart .sp = true := rfl
+theorem termStart_rbr : termStart .rbr = true := rfl
+theorem termStart_comma : termStart .comma = true := rfl
+
+theorem wfProjKey (p : Proj) (x : List Tok) (hp : wfProj p = true) (hx : okNext x = true) (hw : wfList x = true) :
+    wfList (projKey .repaired p ++ x) = true := by
+  obtain ⟨rng, dom, ds, rs, tr⟩ := p
+  simp only [wfProj, Bool.and_eq_true] at hp
+  simp [projKey, Cfg.repaired, wfList_cons_eq, linkB, wfTok, hp.1, hp.2, openEnd, okNext_cons, termStart_fstr,
+    termStart_fnat, termStart_rangeSize, termStart_rpar, hx, hw]
+
+theorem okNext_membersTail (ps : List Proj) (x : List Tok) : okNext (membersTail .repaired ps ++ x) = true := by
+  cases ps <;> simp [membersTail, okNext_cons, termStart_rbr, termStart_comma]
+
+theorem wfMembersTail (ps : List Proj) (x : List Tok) (hp : ps.all wfProj = true) (hw : wfList x = true) :
+    wfList (membersTail .repaired ps ++ x) = true := by
+  induction ps with
+  | nil => simp [membersTail, wfList_cons_eq, linkB, wfTok, openEnd, hw]
+  | cons p ps ih =>
+    simp only [List.all_cons, Bool.and_eq_true] at hp
+    have h1 := wfProjKey p (membersTail .repaired ps ++ x) hp.1 (okNext_membersTail ps x) (ih hp.2)
+    have hm : memberKey .repaired p = projKey .repaired p := by simp [memberKey, Cfg.repaired]
+    simp only [membersTail, hm, List.cons_append, List.append_assoc]
+    have : projKey .repaired p ++ (membersTail .repaired ps ++ x) =
+        .lpar .proj :: ((projKey .repaired p).tail ++ (membersTail .repaired ps ++ x)) := by
+      simp [projKey]
+    rw [this, wfList_comma]
+    rw [this] at h1
+    exact h1
+
+theorem wfMembersKey (ps : List Proj) (x : List Tok) (hp : ps.all wfProj = true) (hw : wfList x = true) :
+    wfList (membersKey .repaired ps ++ x) = true := by
+  cases ps with
+  | nil => simp [membersKey, wfList_cons_eq, linkB, wfTok, openEnd, hw]
+  | cons p ps =>
+    simp only [List.all_cons, Bool.and_eq_true] at hp
+    have hm : memberKey .repaired p = projKey .repaired p := by simp [memberKey, Cfg.repaired]
+    simp only [membersKey, hm, List.append_assoc]
+    exact wfProjKey p _ hp.1 (okNext_membersTail ps x) (wfMembersTail ps x hp.2 hw)
+
+theorem wfLeafKey (l : Leaf) (x : List Tok) (hl : wfLeaf l = true) (hx : okNext x = true) (hw : wfList x = true) :
+    wfList (leafKey .repaired l ++ x) = true := by
+  cases l with
+  | proj p => exact wfProjKey p x hl hx hw
+  | plist ps =>
+    simp only [leafKey, List.cons_append]
+    rw [wfList_cons_eq]
+    simp [wfTok, linkB, openEnd, wfMembersKey ps x hl hw]
+  | merged name dt doms mk pk inner =>
+    simp only [wfLeaf, Bool.and_eq_true] at hl
+    cases inner <;>
+    simp_all [leafKey, opt, Cfg.repaired, wfList_cons_eq, linkB, wfTok, openEnd, okNext_cons, termStart_fstr,
+      termStart_fnats, termStart_dtype, termStart_physics, termStart_rpar]
+  | _ =>
+    simp_all [wfLeaf, leafKey, opt, Cfg.repaired, wfList_cons_eq, linkB, wfTok, openEnd, okNext_cons, termStart_fstr,
+      termStart_fnat, termStart_fint, termStart_fnats, termStart_dtype, termStart_shape, termStart_rpar]
+
+mutual
+theorem wfKey : ∀ (t : Tree) (x : List Tok), wfTree t = true → okNext x = true → wfList x = true →
+    wfList (key .repaired t ++ x) = true
+  | .leaf l, x, ht, hx, hw => by
+    simp only [key]
+    exact wfLeafKey l x (by simpa [wfTree] using ht) hx hw
+  | .bin o a b, x, ht, hx, hw => by
+    simp only [wfTree, Bool.and_eq_true] at ht
+    have hb := wfKey b x ht.2 hx hw
+    have hb' : wfList (.sp :: (key .repaired b ++ x)) = true := by
+      rw [wfList_cons_eq]; simp [wfTok, linkB, openEnd, hb]
+    have ha := wfKey a (.sp :: (key .repaired b ++ x)) ht.1 (by simp [okNext_cons, termStart_sp]) hb'
+    simp only [key, List.cons_append, List.append_assoc]
+    rw [wfList_cons_eq, wfList_cons_eq]
+    simp [wfTok, linkB, openEnd, ha]
+  | .eval f i as, x, ht, hx, hw => by
+    simp only [wfTree, Bool.and_eq_true] at ht
+    obtain ⟨h1, h2⟩ := wfArgsKey as x ht.2 hx hw
+    rw [key_eval]
+    cases i <;>
+    simp [fnKey, wfList_cons_eq, wfTok, linkB, openEnd, okNext_cons, termStart_fstr, termStart_fnat, termStart_rpar,
+      termStart_sp, ht.1, h1, h2]
+theorem wfArgsKey : ∀ (as : Args) (x : List Tok), wfArgs as = true → okNext x = true → wfList x = true →
+    wfList (argsKey .repaired as ++ x) = true ∧ okNext (argsKey .repaired as ++ x) = true
+  | .nil, x, _, hx, hw => by simp [argsKey, hx, hw]
+  | .cons t ts, x, ht, hx, hw => by
+    simp only [wfArgs, Bool.and_eq_true] at ht
+    obtain ⟨h1, h2⟩ := wfArgsKey ts x ht.2 hx hw
+    have := wfKey t (argsKey .repaired ts ++ x) ht.1 h2 h1
+    simp only [argsKey, List.cons_append, List.append_assoc]
+    rw [wfList_cons_eq]
+    simp [wfTok, linkB, openEnd, this, okNext_cons, termStart_sp]
+end
+
+/-- the key of a well-formed tree (names and digests without `,` `)` blank `]`) is a well-formed token list -/
+theorem wfList_key (t : Tree) (h : wfTree t = true) : wfList (key .repaired t) = true := by
+  have := wfKey t [] h rfl rfl
+  simpa using this
+
 
 end PorepyVerif.C45
